@@ -6,11 +6,25 @@ Roots   every composition of the bound, written as a string, with the density gi
         statement lists (keyword density / natural_density, attribute, '@d', '@di', '@dn'; also with
         the dict and atom constructors for the keyword / attribute forms), density in {none, 0.5, 1, 5}.
 Events  f.density = d, f.natural_density = d, f.replace(source, target, portion) for every ordered pair
-        of distinct atoms of the alphabet and portion in {0, 0.25, 0.5, 1}.
+        of distinct atoms of the alphabet and portion in {0, 0.25, 0.5, 1};
+        derivations of a NEW formula from the state: n*f, f+g, f+f, f+=g, f+=f, formula(f),
+        formula(f, density=d), formula(f, natural_density=d) - each in two histories: 'read' (every
+        memoisable observable of the operands - atoms, mass, charge, mass fractions, density, natural
+        density, mass ratio, str, repr, hill, volume by packing and by lattice - is read immediately before
+        the operation, on the very object that is used as the operand) and 'unread' (the operand is rebuilt
+        from its root by the same history and nothing at all is read from it before the operation).
+        The derived formula is judged for what the statement says of ANY formula: its volume estimate
+        (every packing spelling) is that of its own composition, its natural density / density ratio is
+        that of its own composition, and it is a state like any other for the events that follow.  After
+        the operation the operand is judged again (same composition, density, natural density, volume).
 Observed in every state: atoms, density, natural_density (when the density is known), the estimated
         volume for every packing spelling; per composition: volume(a, b, c, alpha, beta, gamma) on the
         lattice grid in every call spelling whose defaults the two docstrings agree on.
-Oracle  mc.ref.density (closed forms).  Signatures are rule:observable; a wrong natural/actual mass
+        The density a derived formula starts with (inherited by n*f, += and formula(f), none for f+g)
+        is what the library says - the statement is silent - except for the two keywords of formula(f, ..).
+Oracle  mc.ref.density (closed forms).  Signatures are rule:observable (for derivations the rule is
+        scale / sum / extend / copy + ':read-operand' or ':unread-operand', and 'operand-after-<rule>' for
+        the operand judged again); a wrong natural/actual mass
         ratio that disappears when the same composition is rebuilt from the neutral atoms is named
         natural-mass-ratio:ion-charge-not-kept."""
 import copy, itertools, math
@@ -24,6 +38,11 @@ ALPHABET = [("H", "H", 0, 0), ("D", "H", 2, 0), ("H[1]", "H", 1, 0), ("O", "O", 
 TOKS = [a[0] for a in ALPHABET]
 DENS = (0.5, 1, 5)
 PORTIONS = (0, 0.25, 0.5, 1)
+MULS = (2, 0.5, 1)                              # n*f (n == 1 is the plain copy path of __rmul__)
+ADDS = ("H", "Fe[56]{3+}", "self")              # g of f+g / f+=g: a natural element, an isotope ion, f itself
+COPIES = [("none", None)] + [(k, d) for k in ("kw_d", "kw_n") for d in DENS]
+DERIVED = ("mul", "add", "iadd", "copy")
+RULE = dict(mul="scale", add="sum", iadd="extend", copy="copy")
 REL = 1e-9
 
 LENGTHS = (1.0, 2.5, 4.0, 10.0)
@@ -38,8 +57,15 @@ META = dict(
     technique="bounded-exhaustive exploration of the density setter/getter/replace graph with closed-form oracle; lattice grid",
     rule=("breadth-first, level by level, from every root (composition x way of giving the density); a state is the "
           "whole observable (atoms in iteration order with their counts, density) within the graph of its composition; "
-          "every event of the alphabet is executed in every state of depth < bound: 6 assignments and 440 "
-          "substitutions (11 x 10 ordered atom pairs x 4 portions).  Non-trivial = reached by at least one assignment "
+          "every event of the alphabet is executed in every state of depth < bound: 6 assignments, 440 "
+          "substitutions (11 x 10 ordered atom pairs x 4 portions) and 32 derivations of a new formula (n*f for n in "
+          "{2, 0.5, 1}; f+g and f+=g for g in {H, Fe[56]{3+}, f itself}; formula(f), formula(f, density=d), "
+          "formula(f, natural_density=d)), each derivation in two histories: operands read immediately before (all "
+          "memoisable observables, on the operand objects themselves) and operands never read (rebuilt from the root).  "
+          "A derivation is first run unread; the read history is skipped only if the unread one already violates.  The "
+          "derived formula and, again, the operand are judged before any merging of equal states.  In states that "
+          "contain a derivation in their history the substitutions are restricted to sources that are present and "
+          "portions {0.25, 1}.  Non-trivial = reached by at least one assignment "
           "of a new value or one substitution whose source is present with portion > 0.  Volumes: all 23 packing "
           "spellings in every state of depth < bound, volume() alone in the deepest states; the lattice grid (4 lengths, 4 angles, every subset of "
           "b, c, alpha, beta, gamma given, 3 call spellings) once per composition."),
@@ -53,6 +79,11 @@ META = dict(
         "neutral element / isotope masses, element densities and covalent radii are read from the library (C06, C20); "
         "the electron mass from periodictable.constants",
         "'that atom's density' of a one-atom formula is atom.density as served by the library",
+        "the density that n*f, f+g, f+=g and formula(f) start with is not judged (the statement is silent): the value "
+        "served by the library (None or a positive number) is taken as the density of the derived state; judged are its "
+        "volume estimate, its natural density / density ratio, the two keywords of formula(f, ...), and everything that "
+        "follows from later events",
+        "the observables read in the 'read' histories do not include the scattering calculators (C03, C05 own them)",
         "both keywords at once, a keyword together with a tag, natural_density of a formula whose density is unknown, "
         "replace(a, a, p), and assigning None are not in the alphabet (the statement is silent)",
         "the default density of a formula of several atoms is not judged; where the library leaves it None that is the "
@@ -68,7 +99,8 @@ META = dict(
     level_text=("every event sequence up to the depth, from every listed way of giving a density, was executed on the "
                 "real objects and every reachable state agreed with the closed forms to 1e-9; nothing is claimed for "
                 "other atoms, counts, densities, portions or lattice parameters"),
-    level_note="trusted: mc.ref.density (40 lines of arithmetic), Formula.atoms, copy.copy of a Formula",
+    level_note=("trusted: mc.ref.density (40 lines of arithmetic), Formula.atoms, copy.copy of a Formula (used to branch "
+                "from a state for in-place events, and to clone a never-read root for the 'unread' histories)"),
 )
 
 
@@ -166,12 +198,39 @@ def compositions(tier):
     return out
 
 
+# ------------------------------------------------------------------ reading an operand before it is used
+READS = (lambda f: f.atoms, lambda f: f.mass, lambda f: f.charge, lambda f: f.molecular_mass,
+         lambda f: f.mass_fraction, lambda f: f.density, lambda f: f.natural_mass_ratio(),
+         lambda f: f.natural_density, lambda f: str(f), lambda f: repr(f), lambda f: f.hill,
+         lambda f: f.volume(), lambda f: f.volume("cubic"), lambda f: f.volume(packing_factor=0.5),
+         lambda f: f.volume(a=2.0, b=3.0, c=4.0))
+
+READ_CODE = """def read(f):
+    for get in (lambda: f.atoms, lambda: f.mass, lambda: f.charge, lambda: f.molecular_mass, lambda: f.mass_fraction,
+                lambda: f.density, lambda: f.natural_mass_ratio(), lambda: f.natural_density, lambda: str(f),
+                lambda: repr(f), lambda: f.hill, lambda: f.volume(), lambda: f.volume("cubic"),
+                lambda: f.volume(packing_factor=0.5), lambda: f.volume(a=2.0, b=3.0, c=4.0)):
+        try: get()
+        except Exception: pass"""
+
+
+def read(f):
+    """Read every memoisable observable of a formula; the values are not judged here (some are not defined
+    for every formula: natural density of an unknown density, mass fractions of nothing)."""
+    for get in READS:
+        try:
+            get(f)
+        except Exception:
+            pass
+
+
 # ------------------------------------------------------------------ one state
 class State(object):
-    __slots__ = ("f", "comp", "rho", "hist", "nontrivial")
+    __slots__ = ("f", "comp", "rho", "hist", "nontrivial", "vol_done")
 
     def __init__(self, f, comp, rho, hist, nontrivial=False):
         self.f, self.comp, self.rho, self.hist, self.nontrivial = f, comp, rho, hist, nontrivial
+        self.vol_done = False
 
 
 class Graph(object):
@@ -184,6 +243,9 @@ class Graph(object):
             self.comp0[t] = self.comp0.get(t, 0) + c
         self.seen = set()
         self.broken = False
+        self.pristine = {}          # root form -> a formula built once and never read
+        self._tail = None
+        self._calls = None
 
     # ---- building
     def compound(self, how):
@@ -261,9 +323,16 @@ class Graph(object):
                 lines.append("f.density = %r" % ev[1])
             elif ev[0] == "setn":
                 lines.append("f.natural_density = %r" % ev[1])
-            else:
+            elif ev[0] == "rep":
                 lines.append("f = f.replace(%s, %s, %r)" % (E.pyname(ev[1]), E.pyname(ev[2]), ev[3]))
-        lines.append(tail or "print(f.atoms, f.density, f.natural_density if f.density is not None else None)")
+            else:
+                if ev[-1]:
+                    lines.append("read(f)")
+                lines.append(self.derive_code(ev))
+        if any(ev[0] in DERIVED and ev[-1] for ev in hist):
+            lines.insert(2, READ_CODE)
+        lines.append(tail or self._tail or
+                     "print(f.atoms, f.density, f.natural_density if f.density is not None else None)")
         return "\n".join(lines) + "\n"
 
     def viol(self, sig, form, hist, expected, observed, extra=None, tail=None):
@@ -351,6 +420,11 @@ class Graph(object):
 
     # ---- packing volumes
     def packing_calls(self):
+        if self._calls is None:
+            self._calls = self._packing_calls()
+        return self._calls
+
+    def _packing_calls(self):
         out = [("default", None, (), {})]
         for n in NAMES:
             for sp in (n, n.upper(), n.capitalize()):
@@ -361,7 +435,7 @@ class Graph(object):
             out.append(("number", x, (), dict(packing_factor=x)))
         return out
 
-    def check_packing(self, st, form, full):
+    def check_packing(self, st, form, full, suffix=""):
         E, acc = self.E, self.acc
         calls = self.packing_calls()
         if not full:
@@ -377,7 +451,7 @@ class Graph(object):
                 got = e
             if isinstance(got, Exception) or not close(got, want, REL):
                 call = "f.volume(%s)" % ", ".join([repr(a) for a in args] + ["%s=%r" % kv for kv in kw.items()])
-                self.viol("volume-packing:" + label, form, st.hist, want,
+                self.viol("volume-packing:" + label + suffix, form, st.hist, want,
                           got if not isinstance(got, Exception) else "%s: %s" % (type(got).__name__, got),
                           extra=dict(packing=[list(args), kw]), tail="print(%s)" % call)
                 return False
@@ -442,6 +516,137 @@ class Graph(object):
         acc.count("lattice_points_without_valid_cell", n_invalid)
         return not reported
 
+    # ---- derivations of a new formula
+    def derive(self, f, ev):
+        """The bare operation on the real objects; returns (result, g)."""
+        E = self.E
+        k = ev[0]
+        if k == "mul":
+            return ev[1] * f, None
+        if k in ("add", "iadd"):
+            if ev[1] == "self":
+                g = f
+            else:
+                g = E.formula(E.atom[ev[1]])
+                if ev[-1]:
+                    read(g)
+            if k == "add":
+                return f + g, g
+            f += g
+            return f, g
+        if k == "copy":
+            if ev[1] == "none":
+                return E.formula(f), None
+            if ev[1] == "kw_d":
+                return E.formula(f, density=ev[2]), None
+            if ev[1] == "kw_n":
+                return E.formula(f, natural_density=ev[2]), None
+        raise MachineryError(ev)
+
+    def derive_code(self, ev):
+        k = ev[0]
+        g = "f0" if ev[1] == "self" else "g"
+        pre = "f0 = f; "
+        if k in ("add", "iadd") and ev[1] != "self":
+            pre += "g = formula(%s); " % self.E.pyname(ev[1]) + ("read(g); " if ev[-1] else "")
+        if k == "mul":
+            return pre + "f = %r * f0" % (ev[1],)
+        if k == "add":
+            return pre + "f = f0 + %s" % g
+        if k == "iadd":
+            return pre + "f += %s" % g
+        return pre + "f = formula(f0%s)" % dict(none="", kw_d=", density=%r" % (ev[2],),
+                                               kw_n=", natural_density=%r" % (ev[2],))[ev[1]]
+
+    def derive_ref(self, comp, ev):
+        k = ev[0]
+        if k == "mul":
+            return dict((t, c * ev[1]) for t, c in comp.items())
+        if k in ("add", "iadd"):
+            if ev[1] == "self":
+                return dict((t, 2 * c) for t, c in comp.items())
+            new = dict(comp)
+            new[ev[1]] = new.get(ev[1], 0) + 1
+            return new
+        return dict(comp)
+
+    def fresh(self, form, hist):
+        """The formula of a state rebuilt from its root by the same history without reading anything from it
+        (but for the reads that the history itself contains)."""
+        E = self.E
+        key = jdump(form)
+        if key not in self.pristine:
+            self.pristine[key] = self.root(form)
+        f = copy.copy(self.pristine[key])
+        for ev in hist:
+            k = ev[0]
+            if k == "setd":
+                f.density = ev[1]
+            elif k == "setn":
+                f.natural_density = ev[1]
+            elif k == "rep":
+                f = f.replace(E.atom[ev[1]], E.atom[ev[2]], ev[3])
+            else:
+                if ev[-1]:
+                    read(f)
+                f, _ = self.derive(f, ev)
+        return f
+
+    def step_derived(self, st, ev, form, hist, last):
+        E, acc = self.E, self.acc
+        k, rd = ev[0], ev[-1]
+        rule = RULE[k] + (":read-operand" if rd else ":unread-operand")
+        acc.count("derivations")
+        if rd:
+            f = copy.copy(st.f) if k == "iadd" else st.f       # in place: branch from the state
+            read(f)
+        else:
+            try:
+                f = self.fresh(form, st.hist)
+            except Exception as e:
+                self.viol("unread-history:raises", form, st.hist, "the formula of the state",
+                          "%s: %s" % (type(e).__name__, e))
+                return None
+        comp = self.derive_ref(st.comp, ev)
+        try:
+            r, g = self.derive(f, ev)
+        except Exception as e:
+            self.viol(rule + ":raises", form, hist, "a formula", "%s: %s" % (type(e).__name__, e))
+            return None
+        rdep = False
+        if k == "copy" and ev[1] == "kw_d":
+            rho = float(ev[2])
+        elif k == "copy" and ev[1] == "kw_n":
+            rho = ev[2] / R.ratio(R.nonzero(comp), E.mass, E.natmass)
+            rdep = True
+        else:
+            # not judged: the density a derived formula starts with is what the library says
+            try:
+                rho = r.density
+            except Exception as e:
+                self.viol(rule + ":density-raises", form, hist, "a density or None", "%s: %s" % (type(e).__name__, e))
+                return None
+            if rho is not None and not (isinstance(rho, (int, float)) and 0 < rho < float("inf")):
+                acc.outcome("derived:density-not-a-positive-number(not judged)")
+                return None
+        new = State(r, comp, rho, hist, True)
+        ok = self.check_state(r, comp, rho, rule, form, hist, ratio_dependent_density=rdep)
+        if ok:
+            ok = self.check_packing(new, form, not last, suffix=":" + rule)
+            new.vol_done = True
+        if ok and k != "iadd":
+            # the operand, judged again after it has been used
+            rule2 = "operand-after-" + RULE[k]
+            self._tail = "print(f0.atoms, f0.density, f0.volume())"
+            try:
+                ok = (self.check_state(f, st.comp, st.rho, rule2, form, hist)
+                      and self.check_packing(State(f, st.comp, st.rho, hist), form, False, suffix=":" + rule2))
+            finally:
+                self._tail = None
+        if ok:
+            acc.outcome(rule + (":unknown-density" if rho is None else ""))
+        return new if ok else None
+
     # ---- events
     def events(self, st, last_level):
         evs = []
@@ -449,7 +654,8 @@ class Graph(object):
             evs.append(("setd", d))
         for d in DENS:
             evs.append(("setn", d))
-        reduced = last_level and self.tier != "quick" and len(st.hist) >= 2
+        derived = any(ev[0] in DERIVED for ev in st.hist)
+        reduced = (last_level and self.tier != "quick" and len(st.hist) >= 2) or derived
         portions = (0.25, 1) if reduced else PORTIONS
         for s in TOKS:
             if reduced and st.comp.get(s, 0) == 0:
@@ -458,9 +664,13 @@ class Graph(object):
                 if s != t:
                     for p in portions:
                         evs.append(("rep", s, t, p))
+        for op in ([("mul", n) for n in MULS] + [("add", g) for g in ADDS] + [("iadd", g) for g in ADDS]
+                   + [("copy", k, d) for k, d in COPIES]):
+            evs.append(op + (0,))          # operand never read
+            evs.append(op + (1,))          # operand read immediately before
         return evs
 
-    def step(self, st, ev, form):
+    def step(self, st, ev, form, last=False):
         """Execute one event on the real object and on the reference; returns the new State or None."""
         E, acc = self.E, self.acc
         hist = st.hist + (ev,)
@@ -486,6 +696,8 @@ class Graph(object):
             rho = ev[1] / R.ratio(R.nonzero(st.comp), E.mass, E.natmass)
             new = State(g, st.comp, rho, hist, True)
             ok = self.check_state(g, new.comp, rho, "set-natural-density", form, hist, ratio_dependent_density=True)
+        elif k in DERIVED:
+            return self.step_derived(st, ev, form, hist, last)
         else:
             _, s, t, p = ev
             comp, rho = R.replace(st.comp, st.rho, s, t, p, E.mass)
@@ -595,9 +807,15 @@ class Graph(object):
             last = level == depth
             nxt = []
             for form, st in frontier:
+                skip = set()
                 for ev in self.events(st, last):
-                    new = self.step(st, ev, form)
+                    if ev[0] in DERIVED and ev[-1] and ev[:-1] in skip:
+                        continue                    # the unread history already violates
+                    v0 = acc.vcount
+                    new = self.step(st, ev, form, last)
                     if new is None:
+                        if ev[0] in DERIVED and not ev[-1] and acc.vcount > v0:
+                            skip.add(ev[:-1])
                         continue
                     k = self.canon(new)
                     if k in self.seen:
@@ -607,7 +825,8 @@ class Graph(object):
                     acc.states += 1
                     if new.nontrivial:
                         acc.nontrivial += 1
-                    self.check_packing(new, form, not last)
+                    if not new.vol_done:
+                        self.check_packing(new, form, not last)
                     if acc.states % 30011 == 0:
                         acc.sample(self.case(form, new.hist))
                     if not last:
